@@ -330,6 +330,8 @@ def build(tier, seed):
     obs.append(vprop.fn_ob("C06", cs["bind"], {}, call=lambda ns, a: a["self"].bind(a["symbols_map"]), setup=setup_self, overrides=cmodel.overrides(), fallback=fb,
                            obid="C06.circuit.bind.all_lengths.contract", timeout_ms=30000, replay_code=cmodel.replay("bind"),
                            desc="for circuits of ANY length: Circuit.bind binds every operation with the same map, in order, keeps the register width and leaves the receiver unchanged"))
+    from props import C06struct
+    obs.extend(C06struct.build(fb))
     obs.append(vprop.enum_ob("C06.commute.enum", F_OPS[:4] + [G + ":CustomGateMatrixFactory.__call__"], _cases, _check_case,
                              "for every gate kind x wrapper (depth <= 2) x symbol-map kind of the pool: matrix(bind(g,m)) == matrix(g).subs(m) decided symbolically by sympy (all values of the "
                              "unbound symbols); same gate kind; free symbols exact and ordered; partial steps equal one step", timeout=1500))
